@@ -161,7 +161,15 @@ def run_history(case, ctx, rng):
     cplxA = np.iscomplexobj(A)
     solved = {"N": [], "T": [], "H": []}
     had_complex_rhs = False
-    ops = ["new", "new", "repeat", "combo", "combo", "zero", "block", "blockdep", "cplx", "x0", "x0span", "blockx0", "update", "newpattern"]
+    ops = ["new", "new", "repeat", "combo", "combo", "zero", "block", "blockdep", "blockscaled", "cplx", "x0", "x0span", "blockx0", "update",
+           "newpattern", "other"]
+    # a second wrapper (own inner solver, own matrix of the same class) lives in the same process and is used in between:
+    # the two must not know of each other
+    other = None
+    if rng.random() < 0.5:
+        Ao = _next_matrix(case, rng, A, False)
+        other = (LDAWrapper(make_inner(case["inner"]), tol=tol), Ao)
+        other[0].update(matgen.to_storage(Ao, st))
     # the tolerances of the wrapper are relative: right-hand sides of any magnitude (nN loads, GPa stresses) are admissible
     bs = float(10.0 ** rng.uniform(-10, 10)) if rng.random() < 0.4 else 1.0
     nA = float(np.linalg.norm(A)) / np.sqrt(n)
@@ -177,6 +185,25 @@ def run_history(case, ctx, rng):
             had_complex_rhs = False
             log.append(op)
             ctx.count("updates")
+            continue
+        if op == "other":
+            if other is not None:
+                wo, Ao = other
+                if rng.random() < 0.3:
+                    Ao = _next_matrix(case, rng, Ao, False)
+                    wo.update(matgen.to_storage(Ao, st))
+                    other = (wo, Ao)
+                bo = rng.standard_normal(n) * bs
+                with warnings.catch_warnings():
+                    warnings.simplefilter("ignore")
+                    xo = wo.solve(bo, trans=trans)
+                Mo = {"N": Ao, "T": Ao.T, "H": Ao.conj().T}[trans]
+                ro = float(np.linalg.norm(Mo @ xo - bo) / np.linalg.norm(bo))
+                ctx.count("solves_checked")
+                ctx.count("other_wrapper_solves")
+                if not ro <= 10 * tol:
+                    raise Violation("second-wrapper-in-the-same-process/answer-does-not-solve-its-system", residual=ro, history=log[-8:])
+                log.append("other/" + trans)
             continue
         M = {"N": A, "T": A.T, "H": A.conj().T}[trans]
         prev = solved[trans]
@@ -213,6 +240,8 @@ def run_history(case, ctx, rng):
             b = rng.standard_normal((n, 4))
             b[:, 2] = b[:, 0] - 2 * b[:, 1]      # linearly dependent column
             b[:, 3] = 0.0                        # zero column
+        elif op == "blockscaled":
+            b = rng.standard_normal((n, 3)) * np.array([1.0, 10.0 ** rng.uniform(-12, -8), 10.0 ** rng.uniform(2, 4)])
         elif op == "cplx":
             b = rng.standard_normal(n) + 1j * rng.standard_normal(n)
         elif op == "x0":
